@@ -652,3 +652,13 @@ func bulkErrors(or *OpResult) []string {
 	}
 	return out
 }
+
+func init() {
+	// C08 on a copy: the journal of an imported ledger is its source's, log for log; the state the import replay
+	// built from it must be the state those logs describe (the export-import scenario of C11, judged by replay).
+	register(Profile{Property: "C08", Name: "journal-of-a-copy", Gen: func(r *RNG, seed uint64, tier string) (*Scenario, *ExploreCfg) {
+		sc, ex := profiles["C11"][0].Gen(r, seed, tier)
+		sc.Property, sc.Profile, sc.Checks = "C08", "journal-of-a-copy", []string{"replay"}
+		return sc, ex
+	}})
+}
